@@ -39,6 +39,12 @@ HasDev(C, d) == d \in C.dev
 \* the NanoVM code generator (fixed) and the tree-walking evaluator (still) keep block-local names alive after the block
 NoBlockScope(C) == HasDev(C, "VM_NO_BLOCK_SCOPE") \/ HasDev(C, "INTERP_NO_BLOCK_SCOPE")
 
+\* INTERP_STATIC_ARRAYS: in the tree-walking evaluator an array made by a literal is a static array (the value is marked
+\* "lit"); array_push extends only dynamic arrays: on an empty literal array it answers a new dynamic array and leaves the
+\* literal untouched, on a non-empty literal array it prints an error and answers void; array_pop of a literal array
+\* answers void as well.  Everywhere else (and without the switch) arrays are one kind of value.
+LitArr(C, ref) == IF HasDev(C, "INTERP_STATIC_ARRAYS") THEN [VArr(ref) EXCEPT !.s = "lit"] ELSE VArr(ref)
+
 \* -------------------------------------------------------- program tables
 FuncIdx(C, name)   == FindName(C.p.funcs, name)
 ExternIdx(C, name) == FindName(C.p.externs, name)
@@ -117,7 +123,7 @@ RECURSIVE Eval(_, _, _), EvalList(_, _, _, _, _), EvalListRTL(_, _, _, _, _), Ca
 Builtins == {"println", "print", "array_length", "at", "array_set", "array_push", "array_pop",
              "str_length", "int_to_string", "abs", "min", "max", "str_concat", "str_equals",
              "str_substring", "str_contains", "char_at", "string_from_char", "string_to_int",
-             "map_new", "map_put", "map_get", "map_has", "map_size", "map_length", "map_remove"} \cup LibBuiltins
+             "map_new", "map_put", "map_get", "map_has", "map_size", "map_length", "map_remove"} \cup LibBuiltins \cup {"filter", "map", "reduce"}
 \* arguments strictly left to right (SPECIFICATION 4.9)
 EvalList(C, es, k, acc, st) ==
    IF k > Len(es) \/ Bad(st) THEN [vs |-> acc, st |-> st]
@@ -220,11 +226,11 @@ Eval(C, e, st0) ==
                         LET r0 == Eval(C, e.a[1], st)
                             r == EvalList(C, e.a, 1, <<>>, r0.st) IN
                         IF Bad(r.st) THEN RV(VVoid, r.st)
-                        ELSE RV(VArr(Len(r.st.store) + 1), [r.st EXCEPT !.store = Append(@, r.vs)])
+                        ELSE RV(LitArr(C, Len(r.st.store) + 1), [r.st EXCEPT !.store = Append(@, r.vs)])
      [] e.k = "alit" -> LET r == IF HasDev(C, "NATIVE_ARGS_RTL") THEN EvalListRTL(C, e.a, Len(e.a), <<>>, st)
                                  ELSE EvalList(C, e.a, 1, <<>>, st) IN
                         IF Bad(r.st) THEN RV(VVoid, r.st)
-                        ELSE RV(VArr(Len(r.st.store) + 1), [r.st EXCEPT !.store = Append(@, r.vs)])
+                        ELSE RV(LitArr(C, Len(r.st.store) + 1), [r.st EXCEPT !.store = Append(@, r.vs)])
      [] e.k = "call" -> CallFn(C, e.s, e.a, st)
      [] OTHER -> RV(VVoid, Fault(st, "stuck:expr"))
 
@@ -260,6 +266,53 @@ CallFn(C, name, args, st) ==
              ELSE IF fn.ret = "void" THEN RV(VVoid, back)
              ELSE RV(VVoid, Fault(back, "stuck:noreturn"))
 
+\* ==== begin: higher-order library functions (STDLIB "Array Advanced Operations": filter; "Higher-Order Functions": map, reduce) ====
+\* They call back into the program, so they live here and not in NanoLib.tla.
+\*   filter(arr, pred) "a new array with elements that match the predicate"       (filter [1,2,3,4,5,6] is_even) = [2,4,6]
+\*   map(arr, f)       "transform each element using the provided function"       (map [1,2,3,4] square) = [1,4,9,16]
+\*   reduce(arr, init, f) "reduce an array to a single value", f(acc, x)          (reduce [1,2,3,4] 0 add) = 10
+\* The elements are visited once each, in index order (INFERRED: all three engines; it is observable when f prints);
+\* the result of filter / map is a new array, the source is unchanged.  A callback that changes the source array while
+\* it is being traversed: unspecified.
+HofBuiltins == {"filter", "map", "reduce"}
+\* the call of a function value on argument *values*: CallFn after the arguments have been evaluated
+ApplyFn(C, fv, vals, st) ==
+   LET fi == IF fv.t = "fn" THEN FuncIdx(C, fv.s) ELSE 0 IN
+   IF fi = 0 THEN RV(VVoid, Fault(st, "stuck:notfn"))
+   ELSE LET fn == C.p.funcs[fi] IN
+        IF Len(vals) # Len(fn.params) THEN RV(VVoid, Fault(st, "stuck:arity"))
+        ELSE IF st.depth + 1 >= MaxDepth THEN RV(VVoid, Fault(st, "fault:depth"))
+        ELSE LET params == [k \in 1..Len(fn.params) |-> [n |-> fn.params[k], v |-> vals[k]]]
+                 inner == [st EXCEPT !.env = IF HasDev(C, "INTERP_DYNAMIC_SCOPE") THEN st.env \o params ELSE params, !.depth = @ + 1]
+                 b == ExecSeq(C, fn.body, 1, inner)
+                 back == [b.st EXCEPT !.env = st.env, !.depth = st.depth] IN
+             IF Bad(b.st) THEN RV(VVoid, back)
+             ELSE IF b.sig = "r" THEN RV(b.v, back)
+             ELSE IF fn.ret = "void" THEN RV(VVoid, back)
+             ELSE RV(VVoid, Fault(back, "stuck:noreturn"))
+RECURSIVE HofLoop(_, _, _, _, _, _, _)
+\* src: the elements at the time of the call; acc: the results so far (filter, map) or <<accumulator>> (reduce)
+HofLoop(C, name, vs, src, k, acc, st0) ==
+   LET st == Tick(st0)
+       f == vs[Len(vs)] IN
+   IF Bad(st) THEN RV(VVoid, st)
+   ELSE IF st.store[vs[1].r] # src THEN RV(VVoid, Fault(st, "unspecified:hof-source-changed"))
+   ELSE IF k > Len(src) THEN
+        (IF name = "reduce" THEN RV(acc[1], st)
+         ELSE RV(VArr(Len(st.store) + 1), [st EXCEPT !.store = Append(@, acc)]))
+   ELSE LET r == ApplyFn(C, f, IF name = "reduce" THEN <<acc[1], src[k]>> ELSE <<src[k]>>, st) IN
+        IF Bad(r.st) THEN RV(VVoid, r.st)
+        ELSE IF name = "filter" THEN
+             (IF r.v.t # "bool" THEN RV(VVoid, Fault(r.st, "stuck:type"))
+              ELSE HofLoop(C, name, vs, src, k + 1, IF IsTrue(r.v) THEN Append(acc, src[k]) ELSE acc, r.st))
+        ELSE IF name = "map" THEN HofLoop(C, name, vs, src, k + 1, Append(acc, r.v), r.st)
+        ELSE HofLoop(C, name, vs, src, k + 1, <<r.v>>, r.st)
+Hof(C, name, vs, st) ==
+   IF Len(vs) # (IF name = "reduce" THEN 3 ELSE 2) THEN RV(VVoid, Fault(st, "stuck:arity"))
+   ELSE IF vs[1].t # "arr" \/ vs[Len(vs)].t # "fn" THEN RV(VVoid, Fault(st, "stuck:type"))
+   ELSE HofLoop(C, name, vs, st.store[vs[1].r], 1, IF name = "reduce" THEN <<vs[2]>> ELSE <<>>, st)
+\* ==== end: higher-order library functions ====
+
 ArrOf(st, v) == st.store[v.r]
 Builtin(C, name, vs, st) ==
    LET n == Len(vs) IN
@@ -285,9 +338,12 @@ Builtin(C, name, vs, st) ==
                  ELSE RV(VVoid, [st EXCEPT !.store[vs[1].r][I64ToInt(ix) + 1] = vs[3]])
      [] name = "array_push" ->      \* INFERRED: pushes in place and returns the same array (aliases see it) on all engines
             IF n # 2 \/ vs[1].t # "arr" THEN RV(VVoid, Fault(st, "stuck:type"))
+            ELSE IF vs[1].s = "lit" /\ Len(ArrOf(st, vs[1])) = 0 THEN RV(VArr(Len(st.store) + 1), [st EXCEPT !.store = Append(@, <<vs[2]>>)])
+            ELSE IF vs[1].s = "lit" THEN RV(VVoid, st)
             ELSE RV(vs[1], [st EXCEPT !.store[vs[1].r] = Append(@, vs[2])])
      [] name = "array_pop" ->
             IF n # 1 \/ vs[1].t # "arr" THEN RV(VVoid, Fault(st, "stuck:type"))
+            ELSE IF vs[1].s = "lit" THEN RV(VVoid, st)
             ELSE LET a == ArrOf(st, vs[1]) IN
                  IF Len(a) = 0 THEN RV(VVoid, Fault(st, "fault:bounds"))
                  ELSE RV(a[Len(a)], [st EXCEPT !.store[vs[1].r] = SubSeq(a, 1, Len(a) - 1)])
@@ -365,6 +421,7 @@ Builtin(C, name, vs, st) ==
             ELSE LET es == ArrOf(st, vs[1])
                      keep == {j \in 1..Len(es) : ~ValEq(es[j].f[1], vs[2])} IN
                  RV(VVoid, [st EXCEPT !.store[vs[1].r] = SelectSeq(es, LAMBDA x : ~ValEq(x.f[1], vs[2]))])
+     [] name \in HofBuiltins -> Hof(C, name, vs, st)      \* higher-order library functions (block above)
      [] name \in LibBuiltins ->        \* the standard library (NanoLib.tla): functions of the argument values and the store
             LET r == LibApply(name, vs, st.store) IN
             IF r.ok = "ok" THEN RV(r.v, [st EXCEPT !.store = r.store]) ELSE RV(VVoid, Fault(st, r.ok))
@@ -527,6 +584,10 @@ RunShadowsFrom(C, k, st, acc) ==
    IF k > Len(C.p.shadows) THEN acc
    ELSE IF ShadowSkipped(C, C.p.shadows[k]) THEN
         RunShadowsFrom(C, k + 1, st, Append(acc, [fn |-> C.p.shadows[k].fn, fails |-> 0, status |-> "skipped", out |-> <<>>]))
+   ELSE IF Len(acc) > 0 /\ acc[Len(acc)].status \notin {"ok", "skipped"} THEN
+        \* a run-time fault inside a shadow block ends the evaluator (and with it the compilation): the remaining blocks
+        \* are not run; after a block without prescription (unspecified / fuel) nothing can be prescribed either
+        RunShadowsFrom(C, k + 1, st, Append(acc, [fn |-> C.p.shadows[k].fn, fails |-> 0, status |-> "notrun", out |-> <<>>]))
    ELSE LET sh == C.p.shadows[k]
             fresh == [st EXCEPT !.env = <<>>, !.out = <<>>, !.fails = 0, !.status = "ok", !.depth = 0]
             r == ExecSeq(C, sh.b, 1, fresh) IN
